@@ -252,3 +252,108 @@ func TestVerifC14Groups(t *testing.T) {
 			Restart: rapid.IntRange(0, 2).Draw(t, "restart") == 0, Second: rapid.SampledFrom([]int{0, 0, 1, 3}).Draw(t, "second")}
 	}, c14Body)
 }
+
+// ---- unforced concurrency: many submissions with identical source and creation time ----
+
+type c14Stress struct {
+	Workers int  `json:"workers"`
+	Each    int  `json:"each"`
+	Epoch   bool `json:"epoch"`
+	ViaCore bool `json:"via_core"` // through Core.SendBundle (store and wire checked), else IdKeeper.update directly
+}
+
+func TestVerifC14Stress(t *testing.T) {
+	u := vk.Unit{Property: "C14", Name: "c14.concurrent-stress", Quick: 10, Thorough: 300,
+		Rule: "2..8 goroutines released together assign IDs to bundles with one source and one creation time (epoch or the same millisecond): either 2000..6000 bundles each through IdKeeper.update, or 20..60 each through Core.SendBundle on a real node without peers; oracle: all (source, time, sequence) triples are pairwise distinct, and through the node every bundle is filed under its own ID as pending; every case non-trivial; distinct by parameters. The schedule is the runtime's; a failure reproduces only statistically"}
+	vk.Check(t, u, func(t *rapid.T) c14Stress {
+		cs := c14Stress{Workers: rapid.IntRange(2, 8).Draw(t, "workers"), Epoch: rapid.Bool().Draw(t, "epoch"), ViaCore: rapid.IntRange(0, 2).Draw(t, "via") == 0}
+		if cs.ViaCore {
+			cs.Each = rapid.IntRange(20, 60).Draw(t, "each")
+		} else {
+			cs.Each = rapid.IntRange(2000, 6000).Draw(t, "each")
+		}
+		return cs
+	}, func(c *vk.Ctx, cs c14Stress) {
+		c.NonTrivial()
+		c.Classf("via core: %v", cs.ViaCore)
+		t0 := time.Now()
+		mk := func(w, i int) bpv7.Bundle {
+			bl := bpv7.Builder().CRC(bpv7.CRC32).Source(vfNodeName + "app").Destination("dtn://dest/inbox").Lifetime("1h").BundleCtrlFlags(0)
+			if cs.Epoch {
+				bl = bl.CreationTimestampEpoch().BundleAgeBlock(uint64(0))
+			} else {
+				bl = bl.CreationTimestampTime(t0)
+			}
+			b, err := bl.PayloadBlock([]byte(fmt.Sprintf("c14-stress-%d-%d", w, i))).Build()
+			if err != nil {
+				panic(err)
+			}
+			return b
+		}
+		var s *vfSim
+		idk := NewIdKeeper()
+		if cs.ViaCore {
+			s = vfNewSim(c, vfConf("epidemic"))
+			defer s.close()
+		}
+		seqs := make([][]uint64, cs.Workers)
+		gate := make(chan struct{})
+		var wg sync.WaitGroup
+		for w := 0; w < cs.Workers; w++ {
+			wg.Add(1)
+			go func(w int) {
+				defer wg.Done()
+				bs := make([]bpv7.Bundle, cs.Each)
+				for i := range bs {
+					bs[i] = mk(w, i)
+				}
+				<-gate
+				for i := range bs {
+					if cs.ViaCore {
+						s.core.SendBundle(&bs[i])
+					} else {
+						idk.update(&bs[i])
+					}
+					seqs[w] = append(seqs[w], bs[i].PrimaryBlock.CreationTimestamp[1])
+				}
+			}(w)
+		}
+		close(gate)
+		wg.Wait()
+		seen := map[uint64][2]int{}
+		for w := range seqs {
+			for i, q := range seqs[w] {
+				if o, dup := seen[q]; dup {
+					s2 := "IdKeeper.update"
+					if cs.ViaCore {
+						s2 = "Core.SendBundle"
+					}
+					if cs.ViaCore {
+						s.failf("c14.duplicate-id", "%d goroutines x %d bundles through %s: sequence number %d was given to bundle %d of worker %d and to bundle %d of worker %d (same source and creation time)", cs.Workers, cs.Each, s2, q, o[1], o[0], i, w)
+					}
+					c.Failf("c14.duplicate-id", "%d goroutines x %d bundles through %s: sequence number %d was given to bundle %d of worker %d and to bundle %d of worker %d (same source and creation time)", cs.Workers, cs.Each, s2, q, o[1], o[0], i, w)
+				}
+				seen[q] = [2]int{w, i}
+			}
+		}
+		if cs.ViaCore {
+			bis, err := s.core.store.QueryPending()
+			if err != nil {
+				s.failf("sim.harness", "QueryPending: %v", err)
+			}
+			pend := map[string]bool{}
+			for _, bi := range bis {
+				if b, err := bi.Parts[0].Load(); err == nil {
+					pend[string(vfPayloadOf(&b))] = true
+				}
+			}
+			for w := 0; w < cs.Workers; w++ {
+				for i := 0; i < cs.Each; i++ {
+					if !pend[fmt.Sprintf("c14-stress-%d-%d", w, i)] {
+						s.failf("c14.not-filed", "%d goroutines x %d bundles through Core.SendBundle: bundle %d of worker %d is not filed in the store as pending (%d pending items for %d submissions)", cs.Workers, cs.Each, i, w, len(bis), cs.Workers*cs.Each)
+					}
+				}
+			}
+		}
+	})
+}
